@@ -2,7 +2,8 @@
 //! capturing `encode::Write` whose `write` accepts a scripted number of bytes per call; the message
 //! is a `Display` impl that emits its text in scripted `write_str` pieces.
 //!
-//! Case fields (see lean/Driver/C10.lean): forest tokens, level, message pieces, sink script.
+//! Case fields (see lean/Driver/C10.lean): forest tokens, level, message pieces, sink script, build
+//! profile (`debug`/`release` = `cfg!(debug_assertions)` of this build; needed by `{D(..)}`/`{R(..)}`).
 use crate::proto::*;
 use crate::rng::Rng;
 use log::{Level, Record};
@@ -25,6 +26,48 @@ enum Node {
     T(String),
     G(P, Vec<Node>),
     H(P, Vec<Node>),
+    /// `{D(..)}` (`true`: the alias `{debug(..)}`)
+    D(bool, P, Vec<Node>),
+    /// `{R(..)}` (`true`: the alias `{release(..)}`)
+    R(bool, P, Vec<Node>),
+}
+
+/// `cfg!(debug_assertions)` of this build. The harness and log4rs are compiled under the same cargo
+/// profile (`[profile.release] debug-assertions = true` in harness/Cargo.toml applies to every
+/// package), so this is also the value log4rs' `FormattedChunk::{Debug,Release}` see.
+pub fn build_profile() -> &'static str {
+    if cfg!(debug_assertions) {
+        "debug"
+    } else {
+        "release"
+    }
+}
+
+/// Start-up assertion: ask the real encoder which of the two spec-less groups is active and
+/// compare with `build_profile()`. Evaluated once; a disagreement poisons every case that
+/// contains a profile-dependent group.
+fn profile_probe_ok() -> bool {
+    static OK: std::sync::OnceLock<bool> = std::sync::OnceLock::new();
+    *OK.get_or_init(|| {
+        let r = guarded(|| {
+            let enc = PatternEncoder::new("{D(d)}{R(r)}{debug(D)}{release(R)}");
+            let mut cap = Cap { script: vec![], idx: 0, bytes: vec![], styles: vec![] };
+            let _ = enc.encode(&mut cap, &Record::builder().level(Level::Info).args(format_args!("x")).build());
+            cap.bytes
+        });
+        match r {
+            Ok(b) => b == if cfg!(debug_assertions) { b"dD".to_vec() } else { b"rR".to_vec() },
+            Err(_) => false,
+        }
+    })
+}
+
+fn has_gated(n: &Node) -> bool {
+    match n {
+        Node::D(..) | Node::R(..) => true,
+        Node::G(_, cs) | Node::H(_, cs) => cs.iter().any(has_gated),
+        _ => false,
+    }
 }
 
 // ---------------------------------------------------------------------------------------------
@@ -57,6 +100,18 @@ fn tokens(n: &Node, out: &mut Vec<String>) {
         }
         Node::H(p, cs) => {
             out.push(format!("h{}:{}", cs.len(), p_token(p)));
+            for c in cs {
+                tokens(c, out);
+            }
+        }
+        Node::D(long, p, cs) | Node::R(long, p, cs) => {
+            let k = match (n, long) {
+                (Node::D(..), false) => 'd',
+                (Node::D(..), true) => 'D',
+                (_, false) => 'r',
+                (_, true) => 'R',
+            };
+            out.push(format!("{}{}:{}", k, cs.len(), p_token(p)));
             for c in cs {
                 tokens(c, out);
             }
@@ -111,8 +166,15 @@ fn pattern(n: &Node, out: &mut String) {
                 out.push(c);
             }
         }
-        Node::G(p, cs) | Node::H(p, cs) => {
-            out.push_str(if matches!(n, Node::H(..)) { "{h(" } else { "{(" });
+        Node::G(p, cs) | Node::H(p, cs) | Node::D(_, p, cs) | Node::R(_, p, cs) => {
+            out.push_str(match n {
+                Node::H(..) => "{h(",
+                Node::D(false, ..) => "{D(",
+                Node::D(true, ..) => "{debug(",
+                Node::R(false, ..) => "{R(",
+                Node::R(true, ..) => "{release(",
+                _ => "{(",
+            });
             for c in cs {
                 pattern(c, out);
             }
@@ -167,14 +229,17 @@ fn parse_nodes(toks: &[String], pos: &mut usize, k: usize) -> Option<Vec<Node>> 
             'm' if cnt.is_empty() => Node::M(dec_p(arg)?),
             'l' if cnt.is_empty() => Node::L(dec_p(arg)?),
             't' if cnt.is_empty() => Node::T(dec_str(arg)?),
-            'g' | 'h' => {
+            'g' | 'h' | 'd' | 'D' | 'r' | 'R' => {
                 let n: usize = cnt.parse().ok()?;
                 let p = dec_p(arg)?;
                 let cs = parse_nodes(toks, pos, n)?;
-                if kind == 'g' {
-                    Node::G(p, cs)
-                } else {
-                    Node::H(p, cs)
+                match kind {
+                    'g' => Node::G(p, cs),
+                    'h' => Node::H(p, cs),
+                    'd' => Node::D(false, p, cs),
+                    'D' => Node::D(true, p, cs),
+                    'r' => Node::R(false, p, cs),
+                    _ => Node::R(true, p, cs),
                 }
             }
             _ => return None,
@@ -258,13 +323,29 @@ fn enc_style(s: &Style) -> String {
 }
 
 pub fn exec(fields: &[&str]) -> String {
-    if fields.len() != 4 {
+    if fields.len() != 4 && fields.len() != 5 {
         return "bad-case".to_owned();
     }
     let forest = match parse_forest(fields[0]) {
         Some(f) => f,
         None => return "bad-case".to_owned(),
     };
+    if fields.len() == 5 {
+        if fields[4] != "debug" && fields[4] != "release" {
+            return "bad-case".to_owned();
+        }
+        if fields[4] != build_profile() {
+            return format!("profile-mismatch:this-build-is-{}", build_profile());
+        }
+    }
+    if forest.iter().any(has_gated) {
+        if fields.len() != 5 {
+            return "bad-case".to_owned();
+        }
+        if !profile_probe_ok() {
+            return "profile-probe-disagrees-with-build".to_owned();
+        }
+    }
     let level = match fields[1] {
         "1" => Level::Error,
         "2" => Level::Warn,
@@ -414,10 +495,11 @@ fn rand_node(rng: &mut Rng, depth: u64, big: bool) -> Node {
     } else {
         let k = rng.range(0, 3);
         let cs = (0..k).map(|_| rand_node(rng, depth - 1, big)).collect();
-        if rng.chance(1, 3) {
-            Node::H(rand_p(rng, big), cs)
-        } else {
-            Node::G(rand_p(rng, big), cs)
+        match rng.below(12) {
+            0..=2 => Node::H(rand_p(rng, big), cs),
+            3 | 4 => Node::D(rng.chance(1, 4), rand_p(rng, big), cs),
+            5 | 6 => Node::R(rng.chance(1, 4), rand_p(rng, big), cs),
+            _ => Node::G(rand_p(rng, big), cs),
         }
     }
 }
@@ -429,7 +511,14 @@ fn case_line(forest: &[Node], level: u64, pieces: &[String], script: &[usize]) -
     }
     let ps: Vec<String> = pieces.iter().map(|p| enc_str(p)).collect();
     let sc: Vec<String> = script.iter().map(|k| k.to_string()).collect();
-    format!("{}\t{}\t{}\t{}", enc_list(",", &toks), level, enc_list(",", &ps), enc_list(",", &sc))
+    format!(
+        "{}\t{}\t{}\t{}\t{}",
+        enc_list(",", &toks),
+        level,
+        enc_list(",", &ps),
+        enc_list(",", &sc),
+        build_profile()
+    )
 }
 
 fn chars_split(s: &str) -> Vec<String> {
@@ -489,6 +578,87 @@ pub fn gen(rng: &mut Rng, n: usize, thorough: bool, emit: &mut dyn FnMut(String)
                     }
                 }
             }
+        }
+    }
+    // profile-dependent groups {D(..)} / {R(..)} (and their aliases): the active one behaves like
+    // the unnamed group, the inactive one writes nothing but its width spec still applies.
+    // Every spec shape, alone / between texts / inside an outer spec / around an inner spec.
+    let w_none = P { fill: None, right: None, min: None, max: None };
+    let mut specs: Vec<P> = vec![w_none.clone()];
+    let gw: &[Option<usize>] = if thorough { &[None, Some(0), Some(1), Some(4), Some(9)] } else { &[None, Some(0), Some(3), Some(6)] };
+    for m in gw {
+        for mx in gw {
+            if m.is_none() && mx.is_none() {
+                continue;
+            }
+            specs.push(P { fill: None, right: None, min: *m, max: *mx });
+            specs.push(P { fill: None, right: Some(true), min: *m, max: *mx });
+            for fill in ['.', '中', '#'] {
+                specs.push(P { fill: Some(fill), right: Some(false), min: *m, max: *mx });
+                specs.push(P { fill: Some(fill), right: Some(true), min: *m, max: *mx });
+            }
+        }
+    }
+    let inner_sets: Vec<Vec<Node>> = vec![
+        vec![],
+        vec![Node::L(w_none.clone()), Node::T(" ".to_owned()), Node::M(w_none.clone())],
+        vec![Node::M(P { fill: Some('é'), right: Some(true), min: Some(5), max: Some(7) })],
+        vec![Node::G(P { fill: None, right: Some(true), min: Some(2), max: None }, vec![])],
+    ];
+    let outer_specs: Vec<P> = vec![
+        P { fill: Some('#'), right: Some(true), min: Some(12), max: Some(12) },
+        P { fill: Some('😀'), right: Some(false), min: Some(7), max: None },
+        P { fill: None, right: None, min: None, max: Some(3) },
+        P { fill: Some('~'), right: Some(true), min: Some(9), max: Some(4) },
+    ];
+    for (si, spec) in specs.iter().enumerate() {
+        for (ii, inner) in inner_sets.iter().enumerate() {
+            for which in 0..4usize {
+                let long = which >= 2;
+                let gated = if which % 2 == 0 {
+                    Node::D(long, spec.clone(), inner.clone())
+                } else {
+                    Node::R(long, spec.clone(), inner.clone())
+                };
+                let script: Vec<usize> = if (si + ii + which) % 2 == 0 { vec![] } else { vec![1; 200] };
+                let pieces = if (si + which) % 3 == 0 { chars_split("héy 中") } else { vec!["héy 中".to_owned()] };
+                // [ gated ]
+                let alone = vec![Node::T("[".to_owned()), gated.clone(), Node::T("]".to_owned())];
+                emit(case_line(&alone, 3, &pieces, &script));
+                if !thorough && (long || ii == 3) {
+                    continue;
+                }
+                // inside an outer spec, with siblings: {({l}<gated>|):<outer>}
+                let o = &outer_specs[(si + ii + which) % outer_specs.len()];
+                let inside = Node::G(
+                    o.clone(),
+                    vec![Node::L(w_none.clone()), gated.clone(), Node::T("|".to_owned())],
+                );
+                emit(case_line(&[inside.clone()], 3, &pieces, &script));
+                // the gated group around a spec'd group and inside a highlight
+                let around = if which % 2 == 0 {
+                    Node::D(long, spec.clone(), vec![inside])
+                } else {
+                    Node::R(long, spec.clone(), vec![inside])
+                };
+                emit(case_line(&[Node::H(o.clone(), vec![around])], 2, &pieces, &script));
+            }
+        }
+    }
+    // zero-length texts under every spec shape: empty message, {():..}, {h():..}, empty literal pieces
+    for spec in &specs {
+        for (k, forest) in [
+            vec![Node::G(spec.clone(), vec![])],
+            vec![Node::H(spec.clone(), vec![])],
+            vec![Node::M(spec.clone())],
+            vec![Node::G(spec.clone(), vec![Node::G(w_none.clone(), vec![]), Node::M(w_none.clone())])],
+            vec![Node::T("<".to_owned()), Node::G(spec.clone(), vec![Node::M(spec.clone())]), Node::T(">".to_owned())],
+        ]
+        .iter()
+        .enumerate()
+        {
+            let pieces: Vec<String> = if k % 2 == 0 { vec![] } else { vec![String::new(), String::new()] };
+            emit(case_line(forest, 1, &pieces, &[1, 1, 1, 1, 1, 1, 1, 1, 1, 1, 1, 1, 1, 1, 1, 1]));
         }
     }
     // random stream
